@@ -9,7 +9,7 @@ CONSTANTS
   Len2N = 32
   Off3N = 16384
   Len8N = 256
-  GPS = 64
+  GPS = 8
 INVARIANT TypeOK
 INVARIANT BytesOK
 INVARIANT StreamsLegal
